@@ -28,6 +28,15 @@
 //!             (`get_pending_decisions` + `complete_*`), and the schedule continues on it. A call
 //!             that fails is never announced (decisions are only sent after Ok). Extra clause: a
 //!             decision announced before the crash is the decision after it.
+//!  persist  : the sim schedule with persistence through the public save/load interface. The
+//!             coordinator writes its state through to a store (`save_to_store` after every event)
+//!             and is restarted from it (`load_from_store` + `recover()`), sometimes after an outage
+//!             longer than the prepare timeout (12 ms in this part); what `get_pending_decisions()`
+//!             lists afterwards is handed out (Committing = COMMIT, Aborting = ABORT) and completed
+//!             later by `complete_commit` / `complete_abort`. Participants are restarted in the
+//!             middle of the protocol from their own `save_to_store` / `load_from_store` state, and
+//!             a 35 ms pause (far below the 30 s lock lifetime) can delay everything. Same clauses;
+//!             a decision handed out before a restart must be the decision after it.
 //!  burst    : part of the threaded mode: duplicates of one PREPARE and its ABORT released by a
 //!             barrier on one participant, then a second transaction commits on the same key and
 //!             the first abort is delivered again.
@@ -86,6 +95,9 @@ fn tag_of(d: &TensorData) -> String {
 fn snapshot(store: &TensorStore) -> Shot {
     let mut m = Shot::new();
     for k in store.scan("") {
+        if k.starts_with("_dtx:") {
+            continue; // the participant's own persisted protocol state, not shard data
+        }
         if let Ok(d) = store.get(&k) {
             m.insert(k, tag_of(&d));
         }
@@ -464,6 +476,25 @@ struct Sim<'a> {
     c: BTreeMap<&'static str, u64>,
     /// walfault part: the coordinator logs to a real TxWal that refuses appends from some size on
     wal: Option<WalFault>,
+    /// persist part: coordinator state is written through to a store (save_to_store after every
+    /// event) and the coordinator / participants are restarted from what they persisted
+    persist: Option<Persist>,
+}
+
+const PERSIST_TIMEOUT_MS: u64 = 12;
+
+struct Persist {
+    cstore: TensorStore,
+    restarts: u32,
+    /// decisions handed out by get_pending_decisions() after a restart, not yet completed
+    indoubt: BTreeMap<usize, Dec>,
+    outages_left: u32,
+    delays_left: u32,
+    participant_restarts_left: u32,
+}
+
+fn persist_config() -> DistributedTxConfig {
+    DistributedTxConfig { prepare_timeout_ms: PERSIST_TIMEOUT_MS, ..DistributedTxConfig::default() }
 }
 
 struct WalFault {
@@ -489,6 +520,8 @@ fn short_src(src: &str) -> &'static str {
         "abort-broadcast-queue"
     } else if src.contains("record_vote") {
         "no-vote"
+    } else if src.contains("get_pending_decisions") {
+        "recovery-list"
     } else if src.contains("complete_commit") {
         "complete_commit-after-restart"
     } else if src.contains("complete_abort") {
@@ -507,11 +540,17 @@ impl<'a> Sim<'a> {
     }
     fn decide(&mut self, i: usize, d: Dec, src: &'static str) {
         // a decision announced before the coordinator crashed must be the decision afterwards
-        if self.wal.as_ref().map(|w| w.restarted).unwrap_or(false) {
+        if self.wal.as_ref().map(|w| w.restarted).unwrap_or(false) || self.persist.as_ref().map(|p| p.restarts > 0).unwrap_or(false) {
             if let Some(&(first, fsrc)) = self.obs[i].decisions.first() {
+                if first != d && self.obs[i].decisions.iter().any(|x| x.0 == d) {
+                    // the change was reported when it was first observed
+                    self.obs[i].decisions.push((d, src));
+                    return;
+                }
                 if first != d {
+                    let second = if d == Dec::Abort { format!("Abort({})", short_src(src)) } else { "Commit".to_string() };
                     self.found.push(Found {
-                        sig: format!("decision-changed-across-coordinator-restart:{:?}({})-then-{:?}", first, short_src(fsrc), d),
+                        sig: format!("decision-changed-across-coordinator-restart:{:?}({})-then-{}", first, short_src(fsrc), second),
                         detail: format!(
                             "t{}: {:?} was decided and announced at `{}`; after the coordinator crashed and recovered from its log, {:?} was decided at `{}`",
                             i, first, fsrc, d, src
@@ -523,6 +562,82 @@ impl<'a> Sim<'a> {
             }
         }
         observe_decision(&mut self.obs, self.plan, i, d, src, &mut self.found);
+    }
+    fn persist_coord(&mut self) {
+        if let Some(p) = self.persist.as_ref() {
+            let _ = self.coord.save_to_store("c", &p.cstore);
+        }
+    }
+    /// persist part: the coordinator process dies and is started again from the state it wrote
+    /// through to its store, possibly after an outage longer than the prepare timeout; it runs
+    /// recover() and hands out the decisions of get_pending_decisions() for (re-)broadcast
+    fn crash_and_reload(&mut self, outage: bool) {
+        let Some(p) = self.persist.as_mut() else { return };
+        p.restarts += 1;
+        if outage {
+            p.outages_left -= 1;
+            std::thread::sleep(Duration::from_millis(PERSIST_TIMEOUT_MS + 5));
+        }
+        self.trace.push(if outage { "CRASH+OUTAGE+RELOAD".to_string() } else { "CRASH+RELOAD".to_string() });
+        match DistributedTxCoordinator::load_from_store("c", &p.cstore, ConsensusManager::default_config(), persist_config()) {
+            Ok(c) => self.coord = c,
+            Err(e) => {
+                self.found.push(Found { sig: "persist:coordinator-load-failed".into(), detail: format!("load_from_store failed: {}", e) });
+                return;
+            }
+        }
+        self.bump("persist:coordinator-restarts");
+        if outage {
+            self.bump("persist:coordinator-restarts-after-long-outage");
+        }
+        let _ = self.coord.recover();
+        for i in 0..self.obs.len() {
+            self.obs[i].ready = false;
+        }
+        for (id, phase) in self.coord.get_pending_decisions() {
+            let Some(i) = self.tx_of_id(id) else { continue };
+            let d = match phase {
+                TxPhase::Committing => Dec::Commit,
+                TxPhase::Aborting => Dec::Abort,
+                _ => continue,
+            };
+            self.trace.push(format!("recovery-list(t{})={:?}", i, d));
+            self.bump(if d == Dec::Commit { "persist:commit-handed-out-by-recovery" } else { "persist:abort-handed-out-by-recovery" });
+            self.decide(i, d, "listed by get_pending_decisions() after recover()");
+            self.send_decision(i, d);
+            if let Some(p) = self.persist.as_mut() {
+                p.indoubt.insert(i, d);
+            }
+        }
+        for i in 0..self.obs.len() {
+            if let Some(id) = self.obs[i].id {
+                if self.coord.get(id).map(|t| t.phase == TxPhase::Prepared).unwrap_or(false) {
+                    self.obs[i].ready = true;
+                }
+            }
+        }
+        self.persist_coord();
+    }
+    /// the broadcast of a recovered decision has been acknowledged: the coordinator completes it
+    fn complete_indoubt(&mut self, i: usize) {
+        let Some(d) = self.persist.as_mut().and_then(|p| p.indoubt.remove(&i)) else { return };
+        let Some(id) = self.obs[i].id else { return };
+        let ok = if d == Dec::Commit { self.coord.complete_commit(id).is_ok() } else { self.coord.complete_abort(id).is_ok() };
+        self.trace.push(format!("complete(t{},{:?})={}", i, d, if ok { "ok" } else { "refused" }));
+        self.bump(if ok { "persist:recovered-decision-completed" } else { "persist:recovered-decision-completion-refused" });
+    }
+    /// a participant process is restarted from what it persisted (save_to_store / load_from_store)
+    fn restart_participant(&mut self, s: usize) {
+        let store = self.parts[s].store().clone();
+        if self.parts[s].save_to_store("n", s, &store).is_err() {
+            return;
+        }
+        let np = TxParticipant::load_from_store("n", s, &store);
+        let _ = np.recover(Duration::from_secs(30));
+        self.parts[s] = np;
+        self.trace.push(format!("RESTART-PARTICIPANT(s{})", s));
+        self.bump("persist:participant-restarts");
+        check_shard(s, self.parts[s].store(), &self.reference[s], &self.obs, "participant restart", &mut self.found);
     }
     fn note_refusal(&mut self, what: &str) {
         if let Some(w) = self.wal.as_mut() {
@@ -786,10 +901,25 @@ fn walfault_case(case_seed: u64, rep: &mut Report, scratch: &std::path::Path) {
     sim_case_with(case_seed, rep, Some(dir.join("tx.wal")));
 }
 
+/// the sim schedule with persistence: the coordinator writes its state through to a store and
+/// is restarted from it (load_from_store + recover() + get_pending_decisions()), sometimes after an
+/// outage longer than the prepare timeout (12 ms here); participants are restarted from their own
+/// persisted state in the middle of the protocol; decisions may be delayed by 35 ms
+fn persist_case(case_seed: u64, rep: &mut Report) {
+    sim_case_flavor(case_seed, rep, None, true);
+}
+
 fn sim_case_with(case_seed: u64, rep: &mut Report, wal_path: Option<std::path::PathBuf>) {
+    sim_case_flavor(case_seed, rep, wal_path, false);
+}
+
+fn sim_case_flavor(case_seed: u64, rep: &mut Report, wal_path: Option<std::path::PathBuf>, persist: bool) {
     let mut rng = Rng::new(case_seed);
-    let plan = gen_plan(&mut rng, 3, wal_path.is_none());
+    let plan = gen_plan(&mut rng, 3, wal_path.is_none() && !persist);
     let (mut coord, parts) = build_world(&plan);
+    if persist {
+        coord = DistributedTxCoordinator::new(ConsensusManager::default_config(), persist_config());
+    }
     let walfault = wal_path.is_some();
     if let Some(path) = &wal_path {
         // room for a seeded number of bytes: typically enough for one or two transactions to get
@@ -816,6 +946,11 @@ fn sim_case_with(case_seed: u64, rep: &mut Report, wal_path: Option<std::path::P
         faults: 0,
         c: BTreeMap::new(),
         wal: wal_path.map(|path| WalFault { path, refusing: false, restarted: false }),
+        persist: if persist {
+            Some(Persist { cstore: TensorStore::new(), restarts: 0, indoubt: BTreeMap::new(), outages_left: 1, delays_left: 1, participant_restarts_left: 2 })
+        } else {
+            None
+        },
     };
     // per-case fault profile
     let p_dup = rng.below(25) as u32;
@@ -837,13 +972,19 @@ fn sim_case_with(case_seed: u64, rep: &mut Report, wal_path: Option<std::path::P
         let w = [
             if sim.net.is_empty() { 0 } else { 30 },
             if unbegun.is_empty() { 0 } else { 6 },
-            if ready.is_empty() { 0 } else { 10 },
+            // with persistence, prepared transactions are left waiting more often, so that restarts find them
+            if ready.is_empty() { 0 } else if persist { 3 } else { 10 },
             w_hostile_commit,
             w_abort,
             w_sweep,
             2,
             3,
             w_misroute,
+            // persist part: coordinator crash, completion of a recovered decision, participant restart, delay
+            if sim.persist.as_ref().map(|p| p.restarts < 3).unwrap_or(false) { 2 } else { 0 },
+            if sim.persist.as_ref().map(|p| !p.indoubt.is_empty()).unwrap_or(false) { 3 } else { 0 },
+            if sim.persist.as_ref().map(|p| p.participant_restarts_left > 0).unwrap_or(false) { 2 } else { 0 },
+            if sim.persist.as_ref().map(|p| p.delays_left > 0).unwrap_or(false) { 1 } else { 0 },
         ];
         if w.iter().sum::<u32>() == 0 {
             break;
@@ -875,6 +1016,31 @@ fn sim_case_with(case_seed: u64, rep: &mut Report, wal_path: Option<std::path::P
             4 => sim.coord_abort(rng.below(n)),
             5 => sim.sweep(),
             6 => sim.take_aborts(),
+            9 => {
+                let outage = sim.persist.as_ref().map(|p| p.outages_left > 0).unwrap_or(false) && rng.bool();
+                sim.crash_and_reload(outage);
+            }
+            10 => {
+                let open: Vec<usize> = sim.persist.as_ref().map(|p| p.indoubt.keys().copied().collect()).unwrap_or_default();
+                if !open.is_empty() {
+                    sim.complete_indoubt(*rng.pick(&open));
+                }
+            }
+            11 => {
+                if let Some(p) = sim.persist.as_mut() {
+                    p.participant_restarts_left -= 1;
+                }
+                sim.restart_participant(rng.below(plan.shards));
+            }
+            12 => {
+                // nothing happens for 35 ms (far below the 30 s lock lifetime, above the prepare timeout)
+                if let Some(p) = sim.persist.as_mut() {
+                    p.delays_left -= 1;
+                }
+                std::thread::sleep(Duration::from_millis(35));
+                sim.trace.push("DELAY-35ms".to_string());
+                sim.bump("persist:delays");
+            }
             8 => {
                 // a PREPARE (or a duplicate of it) reaches a shard that is not a participant of the
                 // transaction; that shard prepares and answers like any other
@@ -905,6 +1071,7 @@ fn sim_case_with(case_seed: u64, rep: &mut Report, wal_path: Option<std::path::P
                 }
             }
         }
+        sim.persist_coord(); // write-through: a crash between two events loses nothing
     }
     // ---- quiescence: deliver everything, commit what is prepared, time out the rest, re-send decisions
     for _round in 0..50 {
@@ -921,9 +1088,17 @@ fn sim_case_with(case_seed: u64, rep: &mut Report, wal_path: Option<std::path::P
                 sim.obs[i].ready = false; // refused (e.g. swept meanwhile); the sweep below settles it
             }
         }
+        let open: Vec<usize> = sim.persist.as_ref().map(|p| p.indoubt.keys().copied().collect()).unwrap_or_default();
+        for i in open {
+            sim.complete_indoubt(i);
+        }
         if sim.net.is_empty() {
             break;
         }
+    }
+    if persist && (0..n).any(|i| sim.obs[i].id.is_some() && sim.obs[i].decision().is_none()) {
+        // let the prepare timeout of whatever is still undecided pass
+        std::thread::sleep(Duration::from_millis(PERSIST_TIMEOUT_MS + 3));
     }
     sim.sweep();
     for i in 0..n {
@@ -941,9 +1116,9 @@ fn sim_case_with(case_seed: u64, rep: &mut Report, wal_path: Option<std::path::P
     // ---- report
     let committed = sim.obs.iter().filter(|o| o.decision() == Some(Dec::Commit)).count() as u64;
     let aborted = sim.obs.iter().filter(|o| o.decision() == Some(Dec::Abort)).count() as u64;
-    rep.count(if walfault { "walfault_cases" } else { "sim_cases" }, 1);
-    rep.count(if walfault { "walfault:decided:commit" } else { "decided:commit" }, committed);
-    rep.count(if walfault { "walfault:decided:abort" } else { "decided:abort" }, aborted);
+    rep.count(if persist { "persist_cases" } else if walfault { "walfault_cases" } else { "sim_cases" }, 1);
+    rep.count(if persist { "persist:decided:commit" } else if walfault { "walfault:decided:commit" } else { "decided:commit" }, committed);
+    rep.count(if persist { "persist:decided:abort" } else if walfault { "walfault:decided:abort" } else { "decided:abort" }, aborted);
     for (k, v) in &sim.c {
         rep.count(k, *v);
     }
@@ -969,7 +1144,7 @@ fn sim_case_with(case_seed: u64, rep: &mut Report, wal_path: Option<std::path::P
         rep.violation(
             f.sig,
             format!("{} | plan {} | trace: {}", f.detail, plan_json(&plan), trace),
-            json!({"mode": if walfault { "walfault" } else { "sim" }, "case_seed": case_seed}),
+            json!({"mode": if persist { "persist" } else if walfault { "walfault" } else { "sim" }, "case_seed": case_seed}),
         );
     }
 }
@@ -1458,6 +1633,8 @@ fn main() {
                     break;
                 }
             }
+        } else if rp["mode"].as_str() == Some("persist") {
+            persist_case(seed, &mut total);
         } else if rp["mode"].as_str() == Some("walfault") {
             walfault_case(seed, &mut total, &args.scratch);
         } else {
@@ -1465,12 +1642,15 @@ fn main() {
         }
     } else {
         if mode == "both" || mode == "sim" {
-            let n = args.extra_u64("cases", args.by_tier(10_000, 600_000));
+            let n = args.extra_u64("cases", args.by_tier(8_000, 600_000));
             let rep = par_cases(args.threads, args.seed, n, args.budget(50, 600), |_i, s, r| sim_case(s, r));
             total.merge(rep);
-            let n = args.extra_u64("walfault-cases", args.by_tier(3_000, 150_000));
+            let n = args.extra_u64("walfault-cases", args.by_tier(2_500, 150_000));
             let scratch = args.scratch.clone();
             let rep = par_cases(args.threads, args.seed ^ 0x3C, n, args.budget(20, 240), move |_i, s, r| walfault_case(s, r, &scratch));
+            total.merge(rep);
+            let n = args.extra_u64("persist-cases", args.by_tier(2_000, 100_000));
+            let rep = par_cases(args.threads, args.seed ^ 0x5D, n, args.budget(20, 240), |_i, s, r| persist_case(s, r));
             total.merge(rep);
         }
         if mode == "both" || mode == "threaded" {
@@ -1504,6 +1684,13 @@ fn main() {
                 ("decisions_attempted_with_refusing_wal", 200),
                 ("recoveries_after_refusal", 200),
                 ("prepared_restored_after_restart", 30),
+                ("persist_cases", 300),
+                ("persist:coordinator-restarts", 300),
+                ("persist:coordinator-restarts-after-long-outage", 50),
+                ("persist:commit-handed-out-by-recovery", 30),
+                ("persist:abort-handed-out-by-recovery", 100),
+                ("persist:participant-restarts", 300),
+                ("persist:delays", 100),
             ]);
         }
         if mode == "both" || mode == "threaded" {
@@ -1519,6 +1706,7 @@ fn main() {
             "re-delivery of a commit that was already applied is not judged (the statement is silent); the reference state follows every successful TxParticipant::commit".into(),
             "one case in six also uses typed operations (NodeCreate/NodeDelete/TableInsert) next to Put/Delete on the same storage keys (node:n0, table:tb), i.e. overlapping data under different lock names".into(),
             "walfault part: the participants do not crash; messages in flight survive the coordinator crash; a vote counts as accepted only if the coordinator recorded it (with a log, record_vote answers Ok(None) without recording when the vote cannot be logged); transactions restored as Prepared keep the 5 s default timeout, which never fires within a case".into(),
+            "persist part: the coordinator's state is saved after every event (write-through), so a restart never sees stale state; the prepare timeout is 12 ms there and outages / pauses are real sleeps of 17 / 35 ms — what the coordinator then decides is observed, the clock is not judged; a participant's persisted protocol state (keys _dtx:*) is not shard data".into(),
             "a vote is attributed to the shard that produced it; a shard outside the participant list that receives a mis-routed PREPARE answers like any other, and its vote is not a participant's vote: commit still needs an accepted yes of every participant".into(),
             "threaded final-state clause: a key written by committed-and-applied transactions must hold what one of them left (order between them not judged); sound because a transaction's undo image is captured and re-applied under its own key lock".into(),
         ],
